@@ -715,9 +715,13 @@ pub trait Scenario: Sync {
 ///              "schedule": [..] (optional explicit choice list), "dump_schedule": bool}
 pub fn worker_main(registry: &[&'static dyn Scenario]) {
     use std::io::Write;
-    let Ok(job) = std::env::var("VERIF_JOB") else {
-        eprintln!("dsim: VERIF_JOB not set; nothing to do");
-        return;
+    let job = match (std::env::var("VERIF_JOB_FILE"), std::env::var("VERIF_JOB")) {
+        (Ok(path), _) => std::fs::read_to_string(&path).expect("read VERIF_JOB_FILE"),
+        (_, Ok(job)) => job,
+        _ => {
+            eprintln!("dsim: VERIF_JOB / VERIF_JOB_FILE not set; nothing to do");
+            return;
+        }
     };
     let job: Value = serde_json::from_str(&job).expect("VERIF_JOB is not JSON");
     let out_path = std::env::var("VERIF_OUT").expect("VERIF_OUT not set");
@@ -767,8 +771,11 @@ pub fn worker_main(registry: &[&'static dyn Scenario]) {
             Some(p) if !p.is_null() => p.clone(),
             _ => sc.generate(seed, tier),
         };
+        let t0 = std::time::Instant::now(); // reporting only: never feeds back into the run
         let res = sc.exec(&params, explicit.clone());
+        let wall_ms = t0.elapsed().as_millis() as u64;
         let mut line = json!({
+            "wall_ms": wall_ms,
             "seed": seed,
             "scenario": name,
             "verdict": match res.verdict { Verdict::Pass => "pass", Verdict::Violation => "violation", Verdict::Inconclusive => "inconclusive", Verdict::Invalid => "invalid" },
